@@ -243,7 +243,7 @@ def _aeif(V):
         return
     if given == "computed":
         rmax = z3.If(radii[0].z > radii[1].z, radii[0].z, radii[1].z)
-        V.ensure("aeif/nearest-atoms-looked-up-within-the-largest-radius", z3.BoolVal(len(asked) == 1 and asked[0][0] is grid and asked[0][1] is ens) if len(asked) != 1
+        V.ensure("aeif/nearest-atoms-looked-up-within-the-largest-radius", z3.BoolVal(False) if (len(asked) != 1 or asked[0][2] is None)
                  else z3.And(z3.BoolVal(asked[0][0] is grid and asked[0][1] is ens), R(asked[0][2]) == rmax))
     q = ens.fields["_atomic_charges"].data
     ws = ens.fields["_weights"].data
